@@ -19,49 +19,94 @@ import (
 	"google.golang.org/grpc/status"
 )
 
-// TestVerifDriverC01: {"arg": code + 100*p} -> 200 calls through UnaryBreakerInterceptor (inside UnaryCrashInterceptor,
-// as in rpc/internal/server.go) of a fresh method whose handler returns status.Error(code) (p = 0), panics with a
-// string (p = 1) or with an error (p = 2); frozen clock. "ok" is false iff any call was cut off by the breaker
-// (ErrServiceUnavailable, handler not reached).
+// the request context of one call: class 0 live | 1 its deadline has expired | 2 cancelled | 4, 5 live (handler panics)
+func verifC01Ctx(class int64) (context.Context, context.CancelFunc) {
+	switch class {
+	case 1:
+		return context.WithDeadline(context.Background(), time.Unix(1, 0))
+	case 2:
+		ctx, cancel := context.WithCancel(context.Background())
+		cancel()
+		return ctx, cancel
+	}
+	return context.WithCancel(context.Background())
+}
+
+// what the handler answers: the status of its context's error when the context is done, else status.Error(code)
+func verifC01Outcome(ctx context.Context, class, code int64) error {
+	switch class {
+	case 4:
+		panic("verif panic")
+	case 5:
+		panic(errors.New("verif panic error"))
+	}
+	if ctx.Err() != nil {
+		return status.FromContextError(ctx.Err()).Err()
+	}
+	return status.Error(codes.Code(code), "verif")
+}
+
+// TestVerifDriverC01 drives UnaryBreakerInterceptor (stream: StreamBreakerInterceptor) inside the crash interceptor,
+// as in rpc/internal/server.go, on a frozen clock.  {"arg": code + 100*p}: 200 identical calls of a fresh method
+// (p = 0 status.Error(code), 1 panic(string), 2 panic(error)); {"calls": [[class, code], ...]}: a mixed stream.
+// "rej"[i] = 1 iff call i was cut off by the breaker (ErrServiceUnavailable, handler not reached); "ok" iff none.
 func TestVerifDriverC01(t *testing.T) {
 	logx.Disable()
 	n := 0
 	verifdrv.Run(t, func(raw json.RawMessage) any {
 		var c struct {
-			Arg int `json:"arg"`
+			Arg    int64     `json:"arg"`
+			Stream bool      `json:"stream"`
+			Calls  [][]int64 `json:"calls"`
 		}
 		if err := json.Unmarshal(raw, &c); err != nil {
 			return map[string]any{"error": err.Error()}
 		}
+		if c.Calls == nil {
+			class := []int64{0, 4, 5}[c.Arg/100]
+			for i := 0; i < 200; i++ {
+				c.Calls = append(c.Calls, []int64{class, c.Arg % 100})
+			}
+		}
 		timex.VerifSetNow(time.Hour)
 		defer timex.VerifClockOff()
 		n++
-		info := &grpc.UnaryServerInfo{FullMethod: fmt.Sprintf("/verif.c01/server-%d", n)}
+		method := fmt.Sprintf("/verif.c01/server-%d", n)
 		reached, dropped, escaped := 0, 0, 0
-		handler := func(ctx context.Context, req any) (any, error) {
-			reached++
-			switch c.Arg / 100 {
-			case 1:
-				panic("verif panic")
-			case 2:
-				panic(errors.New("verif panic error"))
-			}
-			return "ok", status.Error(codes.Code(c.Arg%100), "verif")
-		}
-		for i := 0; i < 200; i++ {
+		rej := make([]int64, 0, len(c.Calls))
+		for _, call := range c.Calls {
+			ctx, cancel := verifC01Ctx(call[0])
 			before := reached
 			var err error
 			if p, _ := verifdrv.Catch(func() {
-				_, err = UnaryCrashInterceptor(context.Background(), "req", info, func(ctx context.Context, req any) (any, error) {
-					return UnaryBreakerInterceptor(ctx, req, info, handler)
+				if c.Stream {
+					info := &grpc.StreamServerInfo{FullMethod: method}
+					err = StreamCrashInterceptor(nil, nil, info, func(svr any, ss grpc.ServerStream) error {
+						return StreamBreakerInterceptor(svr, ss, info, func(svr any, ss grpc.ServerStream) error {
+							reached++
+							return verifC01Outcome(ctx, call[0], call[1])
+						})
+					})
+					return
+				}
+				info := &grpc.UnaryServerInfo{FullMethod: method}
+				_, err = UnaryCrashInterceptor(ctx, "req", info, func(ctx context.Context, req any) (any, error) {
+					return UnaryBreakerInterceptor(ctx, req, info, func(ctx context.Context, req any) (any, error) {
+						reached++
+						return "ok", verifC01Outcome(ctx, call[0], call[1])
+					})
 				})
 			}); p {
 				escaped++
 			}
+			cancel()
 			if reached == before && err == breaker.ErrServiceUnavailable {
 				dropped++
+				rej = append(rej, 1)
+			} else {
+				rej = append(rej, 0)
 			}
 		}
-		return map[string]any{"ok": dropped == 0, "dropped": dropped, "escaped": escaped}
+		return map[string]any{"ok": dropped == 0, "dropped": dropped, "escaped": escaped, "rej": rej}
 	})
 }
